@@ -184,6 +184,9 @@ func c15Classify(err error) string {
 
 func c15Attrs(m pcommon.Map, k int) {
 	m.PutStr("s", "é\"x")
+	if k == 2 { // a large payload: several compression blocks/windows, several HTTP/2 frames
+		m.PutStr("big", c15Big)
+	}
 	if k > 0 {
 		m.PutInt("i", 1<<53+1)
 		m.PutDouble("d", 1.5)
@@ -192,6 +195,17 @@ func c15Attrs(m pcommon.Map, k int) {
 		m.PutEmptyMap("m").PutEmptySlice("l").AppendEmpty().SetStr("x")
 	}
 }
+
+// c15Big: 600 KiB of text that compresses badly (a fixed linear congruential sequence)
+var c15Big = func() string {
+	b := make([]byte, 600<<10)
+	x := uint32(12345)
+	for i := range b {
+		x = x*1664525 + 1013904223
+		b[i] = "abcdefghijklmnopqrstuvwxyzABCDEFGHIJKLMNOPQRSTUVWXYZ0123456789+/"[x>>26]
+	}
+	return string(b)
+}()
 
 type c15Sig struct {
 	name string
@@ -281,11 +295,16 @@ func c15StartReceiver(auth string) (*c15World, error) {
 type c15Sender struct {
 	name string
 	http bool
+	// levelOnly: a sender that differs from another one only in its compression level; it carries the success cases only
+	levelOnly bool
 	logs consumer.Logs
 	trcs consumer.Traces
 	mets consumer.Metrics
 	prof xconsumer.Profiles
 }
+
+// c15Levels: explicit compression levels for the HTTP exporter (the gRPC client has no level setting), on top of the default
+var c15Levels = map[configcompression.Type][]configcompression.Level{"zstd": {3, 11}, "gzip": {9}}
 
 func c15Senders(w *c15World, comps []configcompression.Type, skipped *[]string) []c15Sender {
 	ctx := context.Background()
@@ -317,14 +336,23 @@ func c15Senders(w *c15World, comps []configcompression.Type, skipped *[]string) 
 				c := c
 				w.shutdown = append(w.shutdown, func() { _ = c.Shutdown(ctx) })
 			}
-			out = append(out, c15Sender{"grpc/" + string(comp), false, l, tr, m, pr})
+			out = append(out, c15Sender{"grpc/" + string(comp), false, false, l, tr, m, pr})
 		}()
 		for _, enc := range []otlphttpexporter.EncodingType{otlphttpexporter.EncodingProto, otlphttpexporter.EncodingJSON} {
+		  for _, level := range append([]configcompression.Level{0}, c15Levels[comp]...) {
+			if level != 0 && enc != otlphttpexporter.EncodingProto {
+				continue
+			}
 			func() {
 				hf := otlphttpexporter.NewFactory()
 				hc := hf.CreateDefaultConfig().(*otlphttpexporter.Config)
 				hc.ClientConfig.Endpoint = "http://" + w.haddr
 				hc.ClientConfig.Compression = comp
+				lname := ""
+				if level != 0 {
+					hc.ClientConfig.CompressionParams = configcompression.CompressionParams{Level: level}
+					lname = fmt.Sprintf("-level%d", level)
+				}
 				hc.Encoding = enc
 				hc.RetryConfig.Enabled = false
 				hc.QueueConfig.Enabled = false
@@ -345,8 +373,9 @@ func c15Senders(w *c15World, comps []configcompression.Type, skipped *[]string) 
 					c := c
 					w.shutdown = append(w.shutdown, func() { _ = c.Shutdown(ctx) })
 				}
-				out = append(out, c15Sender{"http-" + string(enc) + "/" + string(comp), true, l, tr, m, pr})
+				out = append(out, c15Sender{"http-" + string(enc) + "/" + string(comp) + lname, true, level != 0, l, tr, m, pr})
 			}()
+		  }
 		}
 	}
 	return out
@@ -677,14 +706,22 @@ func TestVerif(t *testing.T) {
 					if auth != "off" && o.Name != "nil" && o.Name != "plain-error" {
 						continue
 					}
-					for k := 0; k < 2; k++ {
+					if s.levelOnly && (o.Name != "nil" || auth != "off") {
+						continue
+					}
+					for k := 0; k < 3; k++ {
 						if k == 1 && o.Name != "nil" && o.Name != "permanent-error" {
+							continue
+						}
+						if k == 2 && (o.Name != "nil" || auth != "off") { // the large payload: delivered equal, whatever the compression
 							continue
 						}
 						run(c15Case{Auth: auth, Sender: s.name, Signal: sig, Payload: k, Outcome: o.Name})
 					}
 				}
-				run(c15Case{Auth: auth, Sender: s.name, Signal: sig, Outcome: "empty-request"})
+				if !s.levelOnly {
+					run(c15Case{Auth: auth, Sender: s.name, Signal: sig, Outcome: "empty-request"})
+				}
 			}
 		}
 		if auth == "off" {
